@@ -12,6 +12,8 @@ mod ops_case;
 mod ops_compound;
 mod ops_variant;
 mod ops_serde;
+mod ops_line;
+mod ops_match;
 mod ops_undo;
 mod ops_lock;
 mod ops_renameplan;
@@ -26,6 +28,8 @@ const HANDLERS: &[fn(&[&str]) -> Option<String>] = &[
     ops_compound::dispatch,
     ops_variant::dispatch,
     ops_serde::dispatch,
+    ops_line::dispatch,
+    ops_match::dispatch,
     ops_undo::dispatch,
     ops_lock::dispatch,
     ops_renameplan::dispatch,
